@@ -66,10 +66,16 @@ def analysis_check(pid, tier, seed, *, items, want, builders, N, variants=None, 
 
     nfail = confirmed = 0
     failing_items = {}
-    for tid, v in verdicts.items():
+    for tid, v in list(verdicts.items()):
+        it, pi, suffix = all_meta[tid]
+        if it.get("T") is None and any(f["t"] == "mass" and f.get("pi") == 1 for f in v["fails"]):
+            # the parameter point does not make the source program's probability vectors valid (e.g. symbolic
+            # Categorical parameters that do not sum to 1): an ill-formed instantiation, not a result to judge
+            notes_all["ill_formed_instantiation_dropped"] = notes_all.get("ill_formed_instantiation_dropped", 0) + 1
+            del verdicts[tid]
+            continue
         if v["fails"]:
             nfail += 1
-            it, pi, suffix = all_meta[tid]
             failing_items.setdefault((it["id"], suffix), []).append(tid)
     # confirm each failing (item, variant) in a fresh process
     for (iid, suffix), tids in list(failing_items.items()):
